@@ -38,12 +38,12 @@ from harness.props import devx_util as X
 
 PROP = "C57"
 LEAN_MODULES = ["LunaVerif.Props.C57", "LunaVerif.Lemmas.C57Ghost", "LunaVerif.Lemmas.C57Rx", "LunaVerif.Lemmas.C57Tx",
-                "LunaVerif.Props.C57Streams"]
+                "LunaVerif.Props.C57Streams", "LunaVerif.Props.C57RxHost"]
 DRIVER = "Driver/C57.lean"
 REQUIRED_THEOREMS = ["acm_enumerates", "set_line_coding_accepted", "other_class_vendor_stalled", "vendor_reserved_stalled",
                      "unsupported_request_stalled", "rx_in_order_partial", "tx_in_order_partial",
                      "rx_in_order", "rx_delivered_prefix", "tx_in_order", "tx_kept_prefix", "tx_exactly_once",
-                     "halt_clear_is_clear_feature"]
+                     "halt_clear_is_clear_feature", "rx_host_in_order", "rx_host_exactly_once"]
 RULE = ("cases = (a) 'matrix' sessions: ONE request matrix per run, cut into 4 (quick) / 48 (thorough) sessions = the FULL "
         "cross request type (standard / class / vendor / reserved) x recipient (device / interface / endpoint / other / a "
         "reserved one) x direction x data stage (none / wLength 7 / another wLength) for every bRequest that ACMRequestHandlers implements (its "
@@ -70,6 +70,10 @@ ASSUMPTIONS = dev_ctl.ASSUMPTIONS + [
     "annotation `got` of the IN-token events; the device-side event history cannot tell); the host applies the toggle "
     "rule, restarts with DATA0 when the ACK of a CLEAR_FEATURE(ENDPOINT_HALT) status stage for IN 4 reaches the device, "
     "and keeps its toggles across a bus reset (the gateware keeps the endpoints' toggles and buffers across it)",
+    "rx_host_in_order / rx_host_exactly_once: HostOutDiscipline - a data packet the host sends while the device's token "
+    "detector shows OUT / endpoint 4 carries the host's sequence bit, and while a packet is pending (not seen ACKed: "
+    "`got` of the data event) the host sends that packet again; the host restarts with DATA0 when the ACK of a "
+    "CLEAR_FEATURE(ENDPOINT_HALT) status stage for OUT 4 reaches the device",
     "operation-level theorems rx_in_order_partial / tx_in_order_partial: no CLEAR_FEATURE(ENDPOINT_HALT) in between",
 ]
 PARTIAL = ("rx_in_order / tx_in_order are now proved for EVERY event history of the whole-device model (control "
@@ -78,10 +82,13 @@ PARTIAL = ("rx_in_order / tx_in_order are now proved for EVERY event history of 
            "coded: OUT 4 - expected toggle back to DATA0, buffered bytes stay; IN 4 - both sides restart with DATA0, "
            "buffered bytes stay, and a packet the host had accepted whose ACK the device has not seen is delivered a "
            "second time (logged in `redone`, at most one per such halt-clear; tx_exactly_once when there is none). "
-           "Remaining: the host's reception of tx packets is an annotation of the history (HostAcksWhatItGot) rather than "
-           "derived from a model of the bus; the rx statement is about packets the DEVICE ACKed with a fresh toggle (the "
-           "host-side bookkeeping 'seen ACKed / still to retransmit' is only in rx_in_order_partial, on endpoint "
-           "operations without halt-clear). acm_enumerates is proved for the default descriptor set regenerated from "
+           "rx_host_in_order / rx_host_exactly_once add the host's bookkeeping (seen ACKed / pending) over the same "
+           "histories: device-ACKed-fresh = host's done ++ pending-if-the-device-has-it, a halt-clear of OUT 4 while the "
+           "host has missed an ACK re-delivers that packet once (logged in `rredone`). "
+           "Remaining: what the host receives / sees ACKed is an annotation `got` of the events (hypotheses "
+           "HostAcksWhatItGot, HostOutDiscipline) rather than derived from a model of the bus; a host that loses the ACK "
+           "of the CLEAR_FEATURE status stage itself (it restarts its toggle, the device does not) is outside the "
+           "hypotheses. acm_enumerates is proved for the default descriptor set regenerated from "
            "create_descriptors on every run and for every address; the refinement from cycles to events is by "
            "co-simulation only.")
 
